@@ -40,7 +40,8 @@ Proof.
     (fun b st fe _ => forall fe', occ_blk (fe_body fe) (fe_st fe) fe' -> occ_blk b st fe')
     (fun l st fe _ => forall fe', occ_blk (fe_body fe) (fe_st fe) fe' -> occ_l l st fe')
     (fun s st fe _ => forall fe', occ_blk (fe_body fe) (fe_st fe) fe' -> occ_s s st fe'));
-    intros; econstructor; solve [eauto].
+    intros.
+  par: solve [timeout 10 (econstructor; solve [eauto])].
 Qed.
 
 (** * Code lengths *)
@@ -383,21 +384,62 @@ Proof.
   rewrite (change_jump_len _ _ _ _ H8), code_len_emit_u16, code_len_emit_opcode. lia.
 Qed.
 
+Lemma code_len_emit_u8 : forall v st, code_len (emit_u8 v st) = code_len st + 1.
+Proof. intros. unfold code_len, emit_u8. cbn [c_code]. rewrite zlength_app. reflexivity. Qed.
+
+(* a call: the arguments; the callee when it is not a builtin name *)
 Lemma ch_call : forall f args st st', okE (ECall f args) st st' ->
-  exists st1 st2, okA args st st1 /\ okE f st1 st2 /\ code_len st2 <= code_len st'.
+  exists st1, okA args st st1 /\ code_len st1 <= code_len st' /\
+    (builtin_of f = None -> exists st2, okE f st1 st2 /\ code_len st2 <= code_len st').
 Proof.
   intros f args st st' [[lp [fa [fn HF]]] [W Hc]]. rewrite f4s_expr_other in HF by (intros; discriminate).
-  rewrite f4e_call in HF. apply andb_prop in HF. destruct HF as [HF HFf]. apply andb_prop in HF.
-  destruct HF as [Hnb HFa]. apply negb_true_iff in Hnb.
-  rewrite CompilerNames.ce_call in Hc. bok Hc st1 H1.
-  assert (match f with EIdent nm => assoc_text nm builtin_names | _ => None end = None) as Enb.
-  { destruct f; try reflexivity. cbn [is_builtin_callee] in Hnb. unfold is_builtin_name in Hnb.
-    destruct (assoc_text s builtin_names); [discriminate Hnb|reflexivity]. }
-  cbv zeta in Hc. rewrite Enb in Hc. bok Hc st2 H2. bok Hc n Hn. inversion Hc; subst st'; clear Hc.
-  exists st1, st2. split; [split; [exists fa, fn; exact HFa|auto]|].
-  split; [exact (okE_of _ _ _ _ _ _ HFf (proj1 (len_exprs _ _ _ _ _ HFa H1 W)) H2)|].
-  unfold code_len, emit_u8, emit_opcode. cbn [c_code]. rewrite !zlength_app. pose proof (zlength_nonneg _ [byte_of_opcode OCall]).
-  pose proof (zlength_nonneg _ [n]). lia.
+  rewrite f4e_call in HF. apply andb_prop in HF. destruct HF as [HFa HFf].
+  rewrite CompilerNames.ce_call in Hc. bok Hc st1 H1. cbv zeta in Hc.
+  change (match f with EIdent name => assoc_text name builtin_names | _ => None end) with (builtin_of f) in Hc.
+  exists st1. split; [split; [exists fa, fn; exact HFa|auto]|].
+  destruct (builtin_of f) as [b|] eqn:Eb.
+  - bok Hc n Hn. inversion Hc; subst st'; clear Hc. split; [|intros Hx; discriminate Hx].
+    rewrite !code_len_emit_u8, code_len_emit_opcode. lia.
+  - bok Hc st2 H2. bok Hc n Hn. inversion Hc; subst st'; clear Hc.
+    assert (f4e false fa fn f = true) as HFf'.
+    { apply orb_prop in HFf. destruct HFf as [Hb|Hf]; [|exact Hf].
+      destruct f; try discriminate Hb. cbn [is_builtin_callee] in Hb. unfold is_builtin_name in Hb.
+      cbn [builtin_of] in Eb. rewrite Eb in Hb. discriminate Hb. }
+    pose proof (okE_of _ _ _ _ _ _ HFf' (proj1 (len_exprs _ _ _ _ _ HFa H1 W)) H2) as Hk2.
+    pose proof (proj2 (okE_len _ _ _ Hk2)) as L2.
+    split; [rewrite code_len_emit_u8, code_len_emit_opcode; lia|].
+    intros _. exists st2. split; [exact Hk2|]. rewrite code_len_emit_u8, code_len_emit_opcode. lia.
+Qed.
+
+Lemma ch_array : forall vs st st', okE (EArray vs) st st' ->
+  exists st1, okA vs st st1 /\ code_len st1 <= code_len st'.
+Proof.
+  intros vs st st' [[lp [fa [fn HF]]] [W Hc]]. rewrite f4s_expr_other in HF by (intros; discriminate).
+  rewrite f4e_array in HF. rewrite CompilerNames.ce_array in Hc. bok Hc st1 H1. cbv zeta in Hc. bok Hc n Hn.
+  inversion Hc; subst st'; clear Hc.
+  exists st1. split; [split; [exists fa, fn; exact HF|auto]|]. rewrite code_len_emit_u16, code_len_emit_opcode. lia.
+Qed.
+
+Lemma ch_index : forall l i st st', okE (EIndex l i) st st' ->
+  exists st1 st2, okE l st st1 /\ okE i st1 st2 /\ code_len st2 <= code_len st'.
+Proof.
+  intros l i st st' [[lp [fa [fn HF]]] [W Hc]]. rewrite f4s_expr_other in HF by (intros; discriminate).
+  rewrite f4e_index in HF. apply andb_prop in HF. destruct HF as [Hl Hi].
+  rewrite CompilerNames.ce_index in Hc. bok Hc st1 H1. bok Hc st2 H2. inversion Hc; subst st'; clear Hc.
+  exists st1, st2. split; [exact (okE_of _ _ _ _ _ _ Hl W H1)|].
+  split; [exact (okE_of _ _ _ _ _ _ Hi (proj1 (len_expr _ _ _ _ _ _ Hl H1 W)) H2)|]. rewrite code_len_emit_opcode. lia.
+Qed.
+
+Lemma ch_aidx : forall l i r st st', okE (EAssign (EIndex l i) r) st st' ->
+  exists st1 st2 st3, okE l st st1 /\ okE i st1 st2 /\ okE r st2 st3 /\ code_len st3 <= code_len st'.
+Proof.
+  intros l i r st st' [[lp [fa [fn HF]]] [W Hc]]. rewrite f4s_expr_other in HF by (intros; discriminate).
+  rewrite f4e_assign_index in HF. apply andb_prop in HF. destruct HF as [HF Hr]. apply andb_prop in HF. destruct HF as [Hl Hi].
+  rewrite ce_assign_index in Hc. bok Hc st1 H1. bok Hc st2 H2. bok Hc st3 H3. inversion Hc; subst st'; clear Hc.
+  pose proof (proj1 (len_expr _ _ _ _ _ _ Hl H1 W)) as W1. pose proof (proj1 (len_expr _ _ _ _ _ _ Hi H2 W1)) as W2.
+  exists st1, st2, st3. split; [exact (okE_of _ _ _ _ _ _ Hl W H1)|].
+  split; [exact (okE_of _ _ _ _ _ _ Hi W1 H2)|]. split; [exact (okE_of _ _ _ _ _ _ Hr W2 H3)|].
+  rewrite code_len_emit_opcode. lia.
 Qed.
 
 Lemma ch_es : forall x r st st', okA (x :: r) st st' -> exists st1, okE x st st1 /\ okA r st1 st'.
@@ -458,6 +500,9 @@ Proof.
   exists stb. split; [|reflexivity]. split; [exists false, true, true; exact HF|]. split; [apply wfs_enter; exact W|exact Hb].
 Qed.
 
+Lemma occ_not_builtin : forall f st fe, occ_e f st fe -> builtin_of f = None.
+Proof. intros f st fe H. destruct f; try reflexivity. inversion H. Qed.
+
 (** * The entry point of a literal lies inside the code of every construct around it *)
 
 Lemma occ_range :
@@ -508,11 +553,26 @@ Proof.
   - intros c b st st3 fe Hc Ho IH st' Hok. destruct (ch_while _ _ _ _ Hok) as [st3' [st5 [H3 [L2 [H5 [L4 L5]]]]]].
     rewrite (proj2 (proj2 H3)) in Hc. inversion Hc; subst st3'. inversion Ho; subst.
     destruct (ch_bv _ _ _ _ H5) as [stb [Hb Lb]]. specialize (IH stb Hb). pose proof (proj2 (okE_len _ _ _ H3)). lia.
-  - intros f args st fe Ho IH st' Hok. destruct (ch_call _ _ _ _ Hok) as [st1 [st2 [H1 [H2 L2]]]].
-    specialize (IH st1 H1). pose proof (proj2 (okE_len _ _ _ H2)). lia.
-  - intros f args st st1 fe Hc Ho IH st' Hok. destruct (ch_call _ _ _ _ Hok) as [st1' [st2 [H1 [H2 L2]]]].
+  - intros f args st fe Ho IH st' Hok. destruct (ch_call _ _ _ _ Hok) as [st1 [H1 [L1 _]]].
+    specialize (IH st1 H1). lia.
+  - intros f args st st1 fe Hc Ho IH st' Hok. destruct (ch_call _ _ _ _ Hok) as [st1' [H1 [L1 Hf]]].
     rewrite (proj2 (proj2 H1)) in Hc. inversion Hc; subst st1'.
+    destruct (Hf (occ_not_builtin _ _ _ Ho)) as [st2 [H2 L2]].
     specialize (IH st2 H2). pose proof (proj2 (okA_len _ _ _ H1)). lia.
+  - intros vs st fe Ho IH st' Hok. destruct (ch_array _ _ _ Hok) as [st1 [H1 L1]]. specialize (IH st1 H1). lia.
+  - intros l i st fe Ho IH st' Hok. destruct (ch_index _ _ _ _ Hok) as [st1 [st2 [H1 [H2 L2]]]].
+    specialize (IH st1 H1). pose proof (proj2 (okE_len _ _ _ H2)). lia.
+  - intros l i st st1 fe Hc Ho IH st' Hok. destruct (ch_index _ _ _ _ Hok) as [st1' [st2 [H1 [H2 L2]]]].
+    rewrite (proj2 (proj2 H1)) in Hc. inversion Hc; subst st1'.
+    specialize (IH st2 H2). pose proof (proj2 (okE_len _ _ _ H1)). lia.
+  - intros l i r st fe Ho IH st' Hok. destruct (ch_aidx _ _ _ _ _ Hok) as [st1 [st2 [st3 [H1 [H2 [H3 L3]]]]]].
+    specialize (IH st1 H1). pose proof (proj2 (okE_len _ _ _ H2)). pose proof (proj2 (okE_len _ _ _ H3)). lia.
+  - intros l i r st st1 fe Hc Ho IH st' Hok. destruct (ch_aidx _ _ _ _ _ Hok) as [st1' [st2 [st3 [H1 [H2 [H3 L3]]]]]].
+    rewrite (proj2 (proj2 H1)) in Hc. inversion Hc; subst st1'.
+    specialize (IH st2 H2). pose proof (proj2 (okE_len _ _ _ H1)). pose proof (proj2 (okE_len _ _ _ H3)). lia.
+  - intros l i r st st1 st2 fe Hc Hc2 Ho IH st' Hok. destruct (ch_aidx _ _ _ _ _ Hok) as [st1' [st2' [st3 [H1 [H2 [H3 L3]]]]]].
+    rewrite (proj2 (proj2 H1)) in Hc. inversion Hc; subst st1'. rewrite (proj2 (proj2 H2)) in Hc2. inversion Hc2; subst st2'.
+    specialize (IH st3 H3). pose proof (proj2 (okE_len _ _ _ H1)). pose proof (proj2 (okE_len _ _ _ H2)). lia.
   - intros x r st fe Ho IH st' Hok. destruct (ch_es _ _ _ _ Hok) as [st1 [H1 H2]].
     specialize (IH st1 H1). pose proof (proj2 (okA_len _ _ _ H2)). lia.
   - intros x r st st1 fe Hc Ho IH st' Hok. destruct (ch_es _ _ _ _ Hok) as [st1' [H1 H2]].
@@ -649,15 +709,48 @@ Proof.
     + by_ranges.
     + exact (IH stb Hb fe' ltac:(assumption) Hip).
   - (* call: the arguments *)
-    intros f args st fe Ho IH st' Hok fe' Ho' Hip. destruct (ch_call _ _ _ _ Hok) as [st1 [st2 [H1 [H2 L2]]]].
+    intros f args st fe Ho IH st' Hok fe' Ho' Hip. destruct (ch_call _ _ _ _ Hok) as [st1 [H1 [L1 Hf]]].
+    pose proof (proj2 (proj2 H1)). inversion Ho'; subst; same_st.
+    + exact (IH st1 H1 fe' ltac:(assumption) Hip).
+    + match goal with H : occ_e _ _ fe' |- _ => destruct (Hf (occ_not_builtin _ _ _ H)) as [stx [Hx Lx]] end. by_ranges.
+  - (* call: the callee *)
+    intros f args st st1 fe Hc Ho IH st' Hok fe' Ho' Hip. destruct (ch_call _ _ _ _ Hok) as [st1' [H1 [L1 Hf]]].
+    pose proof (proj2 (proj2 H1)). same_st. destruct (Hf (occ_not_builtin _ _ _ Ho)) as [st2 [H2 L2]].
+    inversion Ho'; subst; same_st.
+    + by_ranges.
+    + exact (IH st2 H2 fe' ltac:(assumption) Hip).
+  - (* array *)
+    intros vs st fe Ho IH st' Hok fe' Ho' Hip. destruct (ch_array _ _ _ Hok) as [st1 [H1 L1]].
+    inversion Ho'; subst. exact (IH st1 H1 fe' ltac:(assumption) Hip).
+  - (* index: the array *)
+    intros l i st fe Ho IH st' Hok fe' Ho' Hip. destruct (ch_index _ _ _ _ Hok) as [st1 [st2 [H1 [H2 L2]]]].
     pose proof (proj2 (proj2 H1)). inversion Ho'; subst; same_st.
     + exact (IH st1 H1 fe' ltac:(assumption) Hip).
     + by_ranges.
-  - (* call: the callee *)
-    intros f args st st1 fe Hc Ho IH st' Hok fe' Ho' Hip. destruct (ch_call _ _ _ _ Hok) as [st1' [st2 [H1 [H2 L2]]]].
+  - (* index: the index *)
+    intros l i st st1 fe Hc Ho IH st' Hok fe' Ho' Hip. destruct (ch_index _ _ _ _ Hok) as [st1' [st2 [H1 [H2 L2]]]].
     pose proof (proj2 (proj2 H1)). same_st. inversion Ho'; subst; same_st.
     + by_ranges.
     + exact (IH st2 H2 fe' ltac:(assumption) Hip).
+  - (* index assignment: the array *)
+    intros l i r st fe Ho IH st' Hok fe' Ho' Hip. destruct (ch_aidx _ _ _ _ _ Hok) as [st1 [st2 [st3 [H1 [H2 [H3 L3]]]]]].
+    pose proof (proj2 (proj2 H1)). pose proof (proj2 (proj2 H2)). inversion Ho'; subst; same_st.
+    + exact (IH st1 H1 fe' ltac:(assumption) Hip).
+    + by_ranges.
+    + by_ranges.
+  - (* index assignment: the index *)
+    intros l i r st st1 fe Hc Ho IH st' Hok fe' Ho' Hip. destruct (ch_aidx _ _ _ _ _ Hok) as [st1' [st2 [st3 [H1 [H2 [H3 L3]]]]]].
+    pose proof (proj2 (proj2 H1)). pose proof (proj2 (proj2 H2)). same_st. inversion Ho'; subst; same_st.
+    + by_ranges.
+    + exact (IH st2 H2 fe' ltac:(assumption) Hip).
+    + by_ranges.
+  - (* index assignment: the value *)
+    intros l i r st st1 st2 fe Hc Hc2 Ho IH st' Hok fe' Ho' Hip.
+    destruct (ch_aidx _ _ _ _ _ Hok) as [st1' [st2' [st3 [H1 [H2 [H3 L3]]]]]].
+    pose proof (proj2 (proj2 H1)). same_st. pose proof (proj2 (proj2 H2)). same_st. inversion Ho'; subst; same_st.
+    + by_ranges.
+    + by_ranges.
+    + exact (IH st3 H3 fe' ltac:(assumption) Hip).
   - intros x r st fe Ho IH st' Hok fe' Ho' Hip. destruct (ch_es _ _ _ _ Hok) as [st1 [H1 H2]].
     pose proof (proj2 (proj2 H1)). inversion Ho'; subst; same_st.
     + exact (IH st1 H1 fe' ltac:(assumption) Hip).
@@ -705,5 +798,20 @@ Proof.
   exact (proj1 (proj2 (proj2 (proj2 occ_uniq))) p compiler_new fe' H' st1 Hok fe H Hip).
 Qed.
 
+(* the table of Fragment4.at_overcall: "the function literal of p with entry point ip and n locals has
+   np parameters" *)
+Definition fun_table (p : block) (ip n : Z) (np : nat) : Prop :=
+  exists fe, lits p fe /\ fe_ip fe = ip /\ fe_n fe = n /\ length (fe_ps fe) = np.
+
+(* by lits_uniq the table is a partial function *)
+Theorem fun_table_fun : forall p st1, in_F4 p = true -> compile_statements p compiler_new = Ok st1 ->
+  forall ip n np n' np', fun_table p ip n np -> fun_table p ip n' np' -> n = n' /\ np = np'.
+Proof.
+  intros p st1 HF Hc ip n np n' np' [fe [H [E1 [E2 E3]]]] [fe' [H' [E1' [E2' E3']]]].
+  assert (fe = fe') as <- by (apply (lits_uniq p st1 HF Hc); [exact H|exact H'|congruence]).
+  split; congruence.
+Qed.
+
 Print Assumptions lits_closed.
 Print Assumptions lits_uniq.
+Print Assumptions fun_table_fun.
